@@ -125,13 +125,19 @@ fn key_case(t: &mut Tape, rec: &mut Rec, cheap: bool) -> CaseResult {
         b.s2k(Some(tiny_s2k(&mut rng, shape.v6, t)));
     }
     let mut subs: Vec<SubkeyParams> = vec![];
+    let mut sub_auth: Vec<bool> = vec![];
     for (kt, signing) in &shape.subkeys {
         let mut sb = SubkeyParamsBuilder::default();
         sb.version(version).key_type(kt.clone()).created_at(Timestamp::from_secs(created + 1));
         if *signing {
             sb.can_sign(true);
+            // signing-capable subkeys may be asked to authenticate as well, independently of the primary
+            let auth = t.chance(90);
+            sb.can_authenticate(auth);
+            sub_auth.push(auth);
         } else {
             sb.can_encrypt(EncryptionCaps::All);
+            sub_auth.push(false);
         }
         if shape.lock_subkeys {
             sb.passphrase(Some(PW.to_string()));
@@ -278,10 +284,15 @@ fn key_case(t: &mut Tape, rec: &mut Rec, cheap: bool) -> CaseResult {
     rec.check(pubk.details.users.len() == shape.nuids.max(if has_primary_uid { 1 } else { 0 }), "C07:user-id-count-differs-from-request", || format!("{}; {}", pubk.details.users.len(), ctxs()));
     let all_subs: Vec<&pgp::composed::SignedPublicSubKey> = pubk.public_subkeys.iter().collect();
     rec.check(all_subs.len() == shape.subkeys.len(), "C07:subkey-count-differs-from-request", || format!("{}", all_subs.len()));
-    for (sk, (kt, signing)) in all_subs.iter().zip(shape.subkeys.iter()) {
+    for (i, (sk, (kt, signing))) in all_subs.iter().zip(shape.subkeys.iter()).enumerate() {
         if let Some(sig) = sk.signatures.first() {
             let kf = sig.key_flags();
-            rec.check(kf.sign() == *signing && (kf.encrypt_comms() && kf.encrypt_storage()) == !*signing, "C07:subkey-flags-differ-from-request", || format!("{kt:?} signing {signing}: sign {} enc {}/{}", kf.sign(), kf.encrypt_comms(), kf.encrypt_storage()));
+            let want_auth = sub_auth.get(i).copied().unwrap_or(false);
+            rec.check(
+                kf.sign() == *signing && (kf.encrypt_comms() && kf.encrypt_storage()) == !*signing && kf.authentication() == want_auth && !kf.certify(),
+                "C07:subkey-flags-differ-from-request",
+                || format!("{kt:?} signing {signing} authentication {want_auth} (primary authentication {can_auth}): sign {} enc {}/{} auth {} certify {}", kf.sign(), kf.encrypt_comms(), kf.encrypt_storage(), kf.authentication(), kf.certify()),
+            );
         }
     }
     // 5. usable: sign / verify, encrypt / decrypt (also with the re-imported copy)
